@@ -1,13 +1,13 @@
 \* every subset of the pinned tree's deviations: a failing run is explained by the signature (KF_...) of a
 \* deviation that is switched on, or by the findBound gap
 CONSTANTS
-  MaxSeq = 9
-  Offsets = {998, 999997, 2007989}
-  OffN = 5
-  LongOffsets = {0, 999997}
-  LongSizes = {40, 300}
+  MaxSeq = 8
+  Offsets = {998, 2007989}
+  OffN = 4
+  LongOffsets = {0}
+  LongSizes = {40}
   LongRuns <- RunsQuick
-  FullQueries = 301
+  FullQueries = 41
   DevSets <- AllDevSets
 SPECIFICATION MCSpec
 INVARIANTS TypeOK KFCoverInv DiffersInv RunAgrees RequestBoundInv
